@@ -27,12 +27,14 @@ pub struct ChainTracker {
     n_params: usize,
     n: u64,
     p_accept: f32,
-    last_state: Array1<f32>,
+    last_state: Array1<f64>,
     mean: Array1<f32>,    // n_params
     mean_sq: Array1<f32>, // n_params
     /// First state fed: the moments are accumulated on `x - origin`, so that the f32 running
-    /// mean keeps its digits for parameters that are large compared with their spread.
-    origin: Array1<f32>, // n_params
+    /// mean keeps its digits for parameters that are large compared with their spread. Kept,
+    /// like `last_state`, in f64: the subtraction happens before the narrowing to f32, so that
+    /// f64 and integer states far from the origin do not lose their spread in the conversion.
+    origin: Array1<f64>, // n_params
 }
 
 /// Statistics of an MCMC chain.
@@ -68,8 +70,8 @@ impl ChainTracker {
         let last_state = ArrayView1::from_shape(n_params, initial_state)
             .expect("Expected being able to convert initial state to a NdArray")
             .mapv(|x| {
-                x.to_f32()
-                    .expect("Expected conversion of elements to f32's to succeed")
+                x.to_f64()
+                    .expect("Expected conversion of elements to f64's to succeed")
             });
 
         Self {
@@ -79,7 +81,7 @@ impl ChainTracker {
             last_state,
             mean,
             mean_sq,
-            origin: Array1::<f32>::zeros(n_params),
+            origin: Array1::<f64>::zeros(n_params),
         }
     }
 
@@ -98,7 +100,7 @@ impl ChainTracker {
 
         let n = self.n as f32;
         let x_arr =
-            ndarray::ArrayView1::<T>::from_shape(self.n_params, x)?.mapv(|x| x.to_f32().unwrap());
+            ndarray::ArrayView1::<T>::from_shape(self.n_params, x)?.mapv(|x| x.to_f64().unwrap());
 
         // Welford's update on `x - origin`: `mean` is the running mean of the shifted values and
         // `mean_sq` the sum of squared deviations from it.
@@ -108,7 +110,7 @@ impl ChainTracker {
         if self.n == 1 {
             self.origin = x_arr.clone();
         }
-        let shifted = x_arr.clone() - self.origin.clone();
+        let shifted = (x_arr.clone() - self.origin.clone()).mapv(|v| v as f32);
         let delta = shifted.clone() - self.mean.clone();
         self.mean = self.mean.clone() + delta.clone() / n;
         self.mean_sq = self.mean_sq.clone() + delta * (shifted - self.mean.clone());
@@ -143,7 +145,7 @@ impl ChainTracker {
         ChainStats {
             n: self.n,
             p_accept: self.p_accept,
-            mean: self.mean.clone() + self.origin.clone(),
+            mean: (self.mean.mapv(|v| v as f64) + self.origin.clone()).mapv(|v| v as f32),
             sm2: self.mean_sq.clone() / (n - 1.0),
         }
     }
@@ -198,11 +200,12 @@ fn withinvar_from_cs(chain_stats: &[&ChainStats]) -> (Array1<f32>, Array1<f32>) 
 pub struct MultiChainTracker {
     n: usize,
     pub p_accept: f32,
-    last_state: Array2<f32>,
+    last_state: Array2<f64>,
     mean: Array2<f32>,    // n_chains x n_params
     mean_sq: Array2<f32>, // n_chains x n_params
-    /// First state of the first chain: all chains accumulate their moments on `x - origin`.
-    origin: Array1<f32>, // n_params
+    /// First state of the first chain: all chains accumulate their moments on `x - origin`
+    /// (subtracted in f64, before the narrowing to f32).
+    origin: Array1<f64>, // n_params
     n_chains: usize,
     n_params: usize,
 }
@@ -221,10 +224,10 @@ impl MultiChainTracker {
         Self {
             n: 0,
             p_accept: 0.0,
-            last_state: Array2::<f32>::zeros((n_chains, n_params)),
+            last_state: Array2::<f64>::zeros((n_chains, n_params)),
             mean: Array2::<f32>::zeros((n_chains, n_params)),
             mean_sq,
-            origin: Array1::<f32>::zeros(n_params),
+            origin: Array1::<f64>::zeros(n_params),
             n_chains,
             n_params,
         }
@@ -249,14 +252,15 @@ impl MultiChainTracker {
 
         let n = self.n as f32;
         let x_arr = ndarray::ArrayView2::<T>::from_shape((self.n_chains, self.n_params), x)?
-            .mapv(|x| x.to_f32().unwrap());
+            .mapv(|x| x.to_f64().unwrap());
 
         // Welford's update on `x - origin` (see `ChainTracker::step`); one common origin, so that
         // the chain means stay comparable: R-hat only needs their differences.
         if self.n == 1 {
             self.origin = x_arr.row(0).to_owned();
         }
-        let shifted = x_arr.clone() - self.origin.clone().insert_axis(Axis(0));
+        let shifted =
+            (x_arr.clone() - self.origin.clone().insert_axis(Axis(0))).mapv(|v| v as f32);
         let delta = shifted.clone() - self.mean.clone();
         self.mean = self.mean.clone() + delta.clone() / n;
         self.mean_sq = self.mean_sq.clone() + delta * (shifted - self.mean.clone());
@@ -274,10 +278,11 @@ impl MultiChainTracker {
     }
 
     pub fn stats<B: Backend>(&self, sample: Tensor<B, 3>) -> Result<RunStats, Box<dyn Error>> {
-        let sample_data = sample.to_data().convert::<f32>();
+        // f64 all the way to `RunStats::from`, which removes the location before narrowing to f32
+        let sample_data = sample.to_data().convert::<f64>();
         let sample_ndarray =
-            ArrayView3::from_shape(sample.dims(), sample_data.as_slice().unwrap())?;
-        Ok(RunStats::from_f32_view(sample_ndarray))
+            ArrayView3::<f64>::from_shape(sample.dims(), sample_data.as_slice().unwrap())?;
+        Ok(RunStats::from(sample_ndarray))
     }
 
     /// Computes the maximum R-hat value across all parameters.
@@ -355,15 +360,6 @@ pub struct RunStats {
     pub rhat: BasicStats,
 }
 
-impl RunStats {
-    fn from_f32_view(sample: ArrayView3<f32>) -> Self {
-        let (rhat, ess) = split_rhat_mean_ess(sample);
-        let ess = basic_stats("ESS", ess);
-        let rhat = basic_stats("Split R-hat", rhat);
-        RunStats { ess, rhat }
-    }
-}
-
 impl fmt::Display for RunStats {
     fn fmt(&self, f: &mut fmt::Formatter<'_>) -> fmt::Result {
         // Using the Display implementation of BasicStats
@@ -376,7 +372,18 @@ where
     T: ToPrimitive + std::clone::Clone,
 {
     fn from(sample: ArrayView3<T>) -> Self {
-        let f32_sample = sample.mapv(|x| x.to_f32().unwrap());
+        // The diagnostics are shift-invariant: remove each parameter's location (its first draw)
+        // in f64, BEFORE narrowing to f32 -- f64 or integer draws far from the origin would
+        // otherwise lose their spread in the conversion (at 1e9 the spacing of f32 numbers is 64).
+        let mut f64_sample = sample.mapv(|x| x.to_f64().unwrap());
+        for mut param in f64_sample.axis_iter_mut(Axis(2)) {
+            if let Some(&pivot) = param.first() {
+                if pivot.is_finite() {
+                    param.mapv_inplace(|v| v - pivot);
+                }
+            }
+        }
+        let f32_sample = f64_sample.mapv(|x| x as f32);
         let (rhat, ess) = split_rhat_mean_ess(f32_sample.view());
         let ess = basic_stats("ESS", ess);
         let rhat = basic_stats("Split R-hat", rhat);
